@@ -40,6 +40,12 @@ def gen_cmd(rng, name, depth, max_depth, fanout, opts_by_depth=None):
             elif r < 0.4:
                 s["default"], s["anonymous"] = True, True
             c["subs"].append(s)
+        # an option of the command named like one of its sub-commands (`--add` next to sub-command `add`):
+        # options never name commands, wherever they stand
+        for s in c["subs"]:
+            if len(s["name"]) >= 2 and rng.random() < 0.3 and not any(o["long"] == s["name"] for o in c["opts"]):
+                c["opts"].append({"long": s["name"], "short": None, "mode": "flag", "type": "string", "nullable": False,
+                                  "named_like_sub": True})
     else:
         # arguments only on leaves (a parent with optional arguments cannot get children with required ones)
         n_args = rng.randint(0, 2)
